@@ -37,6 +37,19 @@ class SubInvalidCreds(InvalidCredentialsError):
     pass
 
 
+# ... and subclasses that refine the code with a sub-code of their own
+class CodedNotFound(ResourceNotFoundError):
+    CODE = 'Client.ResourceNotFound.NoSuchUser'
+
+
+class CodedInvalidCreds(InvalidCredentialsError):
+    CODE = 'Client.InvalidCredentialsError.Expired'
+
+
+class CodedTooLong(RequestTooLongError):
+    CODE = 'Client.RequestTooLong.Upload'
+
+
 _MSGS = [u'plain message', u'h\xe9llo w\xf6rld', u'中文 <&> "q"',
          u'semi;colon: and/slash', u'x', u'non-BMP \U0001F600 \U00010348 end',
          u'tab\tand newline\nkept', u']]> not cdata', u'a' * 300,
@@ -63,7 +76,8 @@ class ExcSpec(object):
                    'too_long', 'not_found', 'not_allowed', 'invalid_creds',
                    # subclasses of the dedicated errors keep their status
                    'sub_too_long', 'sub_not_found', 'sub_not_allowed',
-                   'sub_invalid_creds', 'respawn']
+                   'sub_invalid_creds', 'respawn',
+                   'coded_not_found', 'coded_invalid_creds', 'coded_too_long']
     # a Fault whose payload the output protocol may be unable to represent:
     # only "no crash, a well-formed fault, no leak" is asserted for these
     KINDS_AWKWARD = ['fault_awkward']
@@ -94,9 +108,11 @@ class ExcSpec(object):
             d['msg'] = rng.choice(_MSGS)
             d['detail'] = rng.choice(_DETAILS)
         elif kind in ('too_long', 'not_allowed', 'invalid_creds',
-                      'sub_too_long', 'sub_not_allowed', 'sub_invalid_creds'):
+                      'sub_too_long', 'sub_not_allowed', 'sub_invalid_creds',
+                      'coded_invalid_creds', 'coded_too_long'):
             d['msg'] = rng.choice(_MSGS)
-        elif kind in ('not_found', 'sub_not_found', 'respawn'):
+        elif kind in ('not_found', 'sub_not_found', 'respawn',
+                      'coded_not_found'):
             d['msg'] = rng.choice([u'thing', u'res/1'])
         return d
 
@@ -163,6 +179,12 @@ class ExcSpec(object):
             return SubInvalidCreds(d['msg'])
         if k == 'respawn':
             return RespawnError(d['msg'])
+        if k == 'coded_not_found':
+            return CodedNotFound(d['msg'])
+        if k == 'coded_invalid_creds':
+            return CodedInvalidCreds(d['msg'])
+        if k == 'coded_too_long':
+            return CodedTooLong(d['msg'])
         s = d['secret']
         if k == 'key_error':
             return SecretKeyError(s)
@@ -193,6 +215,13 @@ class ExcSpec(object):
             return ('Client.RequestNotAllowed', d['msg'], None)
         if k in ('invalid_creds', 'sub_invalid_creds'):
             return ('Client.InvalidCredentialsError', d['msg'], None)
+        if k == 'coded_not_found':
+            return (CodedNotFound.CODE,
+                    "Requested resource %r not found" % (d['msg'],), None)
+        if k == 'coded_invalid_creds':
+            return (CodedInvalidCreds.CODE, d['msg'], None)
+        if k == 'coded_too_long':
+            return (CodedTooLong.CODE, d['msg'], None)
         return ('Server', 'Internal Error', None)
 
     @staticmethod
@@ -201,13 +230,13 @@ class ExcSpec(object):
         if out_prot in ('soap11', 'soap12'):
             return '500'
         k = d['kind']
-        if k in ('too_long', 'sub_too_long'):
+        if k in ('too_long', 'sub_too_long', 'coded_too_long'):
             return '413'
-        if k in ('not_found', 'sub_not_found', 'respawn'):
+        if k in ('not_found', 'sub_not_found', 'respawn', 'coded_not_found'):
             return '404'
         if k in ('not_allowed', 'sub_not_allowed'):
             return '405'
-        if k in ('invalid_creds', 'sub_invalid_creds'):
+        if k in ('invalid_creds', 'sub_invalid_creds', 'coded_invalid_creds'):
             return '401'
         code = ExcSpec.expected(d)[0]
         if code == 'Client' or code.startswith('Client.'):
